@@ -98,6 +98,9 @@ fn main() {
         "c17-child" => {
             let sub = opts.extra.first().cloned().unwrap_or_default();
             let rest: Vec<String> = opts.extra[1..].to_vec();
+            if sub == "noop" {
+                std::process::exit(0);
+            }
             std::process::exit(if sub == "modes" { filesink::modes_child(&rest) } else { filesink::crash_child(&rest) });
         }
         "c18" => maps::main(&opts),
